@@ -16,7 +16,7 @@ def run_reg(chk, A, table_auth):
                 if ag is not None:
                     s.aaguid = ag
                 if f & 0x80:
-                    s.ext = (None, b"\xa0", b"\xa1\x68credBlob\x58\x20" + bytes(32), b"\xa1\x63uvm\x81\x83\x02\x04\x02")[(f // 4 + ruv + rup) % 4]
+                    s.ext = (None, b"\xa0", b"\xa1\x68credBlob\x58\x20" + bytes(32), b"\xa1\x63uvm\x81\x83\x02\x04\x02", b"\xa1\x65ratio\xf9\x3e\x00", b"\xa2\x61a\xfa\x3f\xc0\x00\x00\x61b\xf9\x7c\x00")[(f // 4 + ruv + rup) % 6]
                 pd, reg = regsim.build(s)
                 reg.attachment = (None, "platform", "cross-platform")[(f // 2 + ruv + 2 * rup) % 3]      # a client hint: no influence on any reported field
                 # the unauthenticated convenience copies of PublicKeyCredential.toJSON() (Level 3) claim other flags: only the SIGNED authenticator
